@@ -15,6 +15,7 @@
 #include <cstddef>
 #include <cstdint>
 #include <mutex>
+#include <thread>
 
 namespace pika::detail {
 
@@ -204,8 +205,15 @@ namespace pika::detail {
         }
 
         // Callback has either already executed or is executing concurrently
-        // on another thread.
-        if (signalling_thread_ == pika::threads::detail::get_self_id())
+        // on another thread. pika threads are identified by their id (they may migrate between
+        // OS threads); threads that are not pika threads all have the same invalid id and are
+        // told apart by their OS thread id.
+        auto const self_id = pika::threads::detail::get_self_id();
+        bool const on_signalling_thread = self_id != pika::threads::detail::invalid_thread_id ?
+            signalling_thread_ == self_id :
+            (signalling_thread_ == pika::threads::detail::invalid_thread_id &&
+                signalling_os_thread_ == std::this_thread::get_id());
+        if (on_signalling_thread)
         {
             // Callback executed on this thread or is still currently executing
             // and is unregistering itself from within the callback.
@@ -255,6 +263,7 @@ namespace pika::detail {
         PIKA_ASSERT(stop_requested(state_.load(std::memory_order_acquire)));
 
         signalling_thread_ = pika::threads::detail::get_self_id();
+        signalling_os_thread_ = std::this_thread::get_id();
 
         // invoke registered callbacks
         while (callbacks_ != nullptr)
